@@ -2,7 +2,7 @@
 Require Extraction.
 Require Import ExtrOcamlBasic.
 From Coq Require Import ZArith NArith.
-From Astisub Require Import Kit.Base Kit.Str Kit.Float64 Kit.Scan Kit.Html Model.Ops Model.Dur Model.Lin Model.Srt Model.Files.
+From Astisub Require Import Kit.Base Kit.Str Kit.Float64 Kit.Scan Kit.Html Model.Ops Model.Dur Model.Lin Model.Srt Model.Files Model.Vtt.
 Extraction "model.ml"
   Z.add Z.mul Z.opp Z.div Z.modulo Z.of_N Z.to_N N.add N.mul
   order merge add_dur force_duration fragment unfragment optimize remove_styling item_text
@@ -11,4 +11,5 @@ Extraction "model.ml"
   lin linear_correction frac_float
   lines scan read_n tokenize html_simple
   read_srt read_srt_lines write_srt parse_text_srt escape_html unescape_html
-  reader_for writer_for.
+  reader_for writer_for
+  read_vtt write_vtt parse_text_vtt vtt_line_simple.
